@@ -10,7 +10,8 @@ from . import C01 as _base
 
 OBLIGATION_FLOOR = 1500
 Z3_TIMEOUT_MS = _base.Z3_TIMEOUT_MS
-SUPPORT_UNITS = ['UnitCube', 'NautilusBound', 'NautilusBound.compute']
+SUPPORT_UNITS = ['UnitCube', 'NautilusBound', 'NautilusBound.compute',
+                 'evaluate_likelihood']
 UNITS = ['sample_shell', 'add_samples', 'run[verbose=False,file=False]',
          'run[verbose=False,file=True]', 'run[verbose=True,file=False]',
          'run[verbose=True,file=True]'] + ['support:' + u
@@ -28,8 +29,16 @@ def build(cx, fe, tier, info, only=None):
         # classes the Sampler instantiates return proposals inside the cube,
         # and NautilusBound.compute builds the outer union restricted to it
         # (units shared with C07)
+        unit = only.split(':', 1)[1]
+        if unit == 'evaluate_likelihood':
+            # the counter grows by exactly the number of rows of the batch in
+            # every evaluation mode (scalar / vectorised / dictionary / pool):
+            # unit shared with C03
+            from . import C03
+            C03.build(cx, fe, tier, info, only=unit)
+            return
         from . import C07
-        C07.build(cx, fe, tier, info, only=only.split(':', 1)[1])
+        C07.build(cx, fe, tier, info, only=unit)
         return
     _base.build(cx, fe, tier, info, only=only)
     info['assumptions'] = [a.replace('C01:', 'C10:')
